@@ -14,7 +14,7 @@ COMMON_FILTERS = ["flush_worker", "store::insert", "flush_manager", "segment_ind
                   "wal_cleaner", "inner_wal_writer", "wal_handle", "segment::lifecycle",
                   "compaction_worker", "auth::", "handlers::", "command::dispatcher",
                   "command::parser", "json_command", "shard::worker", "shard::context",
-                  "wal_recovery", "condition_evaluator", "temporal_calendar_index", "time_bucketing", "calendar_dir", "shared::time", "temporal_builder", "wal_archive", "wal_archiver", "schema::registry", "field_selector", "index_selector", "segment_id", "memory::memtable", "zone_group_collector", "read::memtable_query", "operators::memtable_source", "merge::aggregate_stream", "zone_xor_index", "selector::scope", "zone::zone_combiner", "zone::candidate_zone", "read::query_plan", "query::streaming::scan", "auth::user_ops", "flow::ordered_merger", "zone_cursor_loader", "write::column_writer", "schema::normalization", "range_allocator", "passive_buffer_set", "filter::condition", "zone_hydrator", "column::column_values", "parser::tokenizer", "enum_pruner", "enum_zone_pruner", "xor_pruner", "range_pruner", "query::streaming::merger", "query::merge::streaming", "sink::aggregate::group_key", "aggregate::columnar", "column_group_builder", "zone::zone_merger", "filter::zone_surf_filter"]
+                  "wal_recovery", "condition_evaluator", "temporal_calendar_index", "time_bucketing", "calendar_dir", "shared::time", "temporal_builder", "wal_archive", "wal_archiver", "schema::registry", "field_selector", "index_selector", "segment_id", "memory::memtable", "zone_group_collector", "read::memtable_query", "operators::memtable_source", "merge::aggregate_stream", "zone_xor_index", "selector::scope", "zone::zone_combiner", "zone::candidate_zone", "read::query_plan", "query::streaming::scan", "auth::user_ops", "flow::ordered_merger", "zone_cursor_loader", "write::column_writer", "schema::normalization", "range_allocator", "passive_buffer_set", "filter::condition", "zone_hydrator", "column::column_values", "parser::tokenizer", "enum_pruner", "enum_zone_pruner", "xor_pruner", "range_pruner", "query::streaming::merger", "query::merge::streaming", "sink::aggregate::group_key", "aggregate::columnar", "column_group_builder", "zone::zone_merger", "filter::zone_surf_filter", "read::segment_query_runner"]
 
 
 def all_filters():
